@@ -8,6 +8,7 @@ package ss
 import (
 	"crypto/x509"
 	"sort"
+	"strconv"
 
 	"github.com/smallstep/certificates/db"
 )
@@ -162,11 +163,13 @@ func (d *DB) GetCRL() (*db.CertificateRevocationListInfo, error) {
 }
 
 func (d *DB) StoreCRL(info *db.CertificateRevocationListInfo) error {
-	if err := d.H.before("storecrl", ""); err != nil {
+	// key = the number of the list being stored
+	num := strconv.FormatInt(info.Number, 10)
+	if err := d.H.before("storecrl", num); err != nil {
 		return err
 	}
 	err := d.DB.StoreCRL(info)
-	if e := d.H.after("storecrl", "", err == nil, err); e != nil {
+	if e := d.H.after("storecrl", num, err == nil, err); e != nil {
 		return e
 	}
 	return err
